@@ -22,20 +22,20 @@ import (
 // C20 — wire format round trip preserves every field and every signature.
 
 type c20Case struct {
-	Kind     string   `json:"kind"` // PP | P | C | VC | NV | PROOF
-	Inst     uint64   `json:"inst"`
-	H        uint64   `json:"h"`
-	V        uint64   `json:"v"`
-	Hash     []byte   `json:"hash"`
-	IDs      [][]byte `json:"ids"`  // member ids (first = the author); pairwise distinct
-	Block    bool     `json:"block"`
-	ProofV   uint64   `json:"proof_v"`   // view of the prepared proof (VC / NV votes)
-	NPrep    int      `json:"n_prep"`    // number of preparers in proofs
-	NVotes   int      `json:"n_votes"`   // NV: number of votes
-	VoteProof []bool  `json:"vote_proof"` // NV: which votes carry a proof
-	Seed     uint64   `json:"seed"`
-	SigLen   int      `json:"sig_len"`   // length of every signature (-1 = natural)
-	ShareLen int      `json:"share_len"` // length of every random seed share (-1 = natural)
+	Kind      string   `json:"kind"` // PP | P | C | VC | NV | PROOF
+	Inst      uint64   `json:"inst"`
+	H         uint64   `json:"h"`
+	V         uint64   `json:"v"`
+	Hash      []byte   `json:"hash"`
+	IDs       [][]byte `json:"ids"` // member ids (first = the author); pairwise distinct
+	Block     bool     `json:"block"`
+	ProofV    uint64   `json:"proof_v"`    // view of the prepared proof (VC / NV votes)
+	NPrep     int      `json:"n_prep"`     // number of preparers in proofs
+	NVotes    int      `json:"n_votes"`    // NV: number of votes
+	VoteProof []bool   `json:"vote_proof"` // NV: which votes carry a proof
+	Seed      uint64   `json:"seed"`
+	SigLen    int      `json:"sig_len"`   // length of every signature (-1 = natural)
+	ShareLen  int      `json:"share_len"` // length of every random seed share (-1 = natural)
 }
 
 type c20env struct {
@@ -57,7 +57,9 @@ func newC20env(c c20Case) *c20env {
 	return e
 }
 
-func (e *c20env) f(i int) *messagesfactory.MessageFactory { return e.fac[string(e.c.IDs[i%len(e.c.IDs)])] }
+func (e *c20env) f(i int) *messagesfactory.MessageFactory {
+	return e.fac[string(e.c.IDs[i%len(e.c.IDs)])]
+}
 
 func (e *c20env) verify(h primitives.BlockHeight, content []byte, s *protocol.SenderSignature) bool {
 	return (&fakes.KeyManager{Reg: e.reg}).VerifyConsensusMessage(h, content, s) == nil
